@@ -5,6 +5,7 @@ import JunoModel.C19.ModelProc
 import JunoModel.C19.ModelHash
 import JunoModel.C19.ModelCache
 import JunoModel.C19.ModelR5
+import JunoModel.C19.ModelR6
 /-!
 Line-protocol driver for the C19 model (`lake build c19drv`). Core Lean only.
 
@@ -52,6 +53,13 @@ Requests (answers):
            ` <fin 0|1> <live>`: the unit's key is in the finalized cache; number of live subprocessors
   pexpire <committee> <publisher> <root> <nonce> -> expired | none, then ` | <tasks> <publisherTasks>`
            (the subprocessor of this message key reaches its time-out)
+  phc <0|1>                          -> ok      the unit channel of a subprocessor: unbuffered / NumTotalShards (5e563fa)
+  poffer <sigok> <unit fields as pstep> <sender>   ProcessMessage alone (ModelR6 `offer`; same processor as pstep)
+        -> taken | full | ignored | noroute:<reason> | panic, then
+           ` | <tasks> <publisherTasks> <fin 0|1> <live> <units waiting in the channel of the unit's key>`
+  pconsume <sigok of the waiting unit> <committee> <publisher> <root> <nonce>
+        the subprocessor of the key receives the next unit of its channel and deals with it (`consume`)
+        -> empty | need-rs … (then `prs`) | <outcome as pstep> ` | <tasks> <publisherTasks> <fin> <live> <waiting>`
   leafpre <hex>                      -> <hex>   the bytes merkleLeafHash hands to SHA-256
   nodepre <left hex> <right hex>     -> <hex>   the bytes merkleNodeHash hands to SHA-256
   sigpayload <root> <committee> <nonce> -> <hex> the 95 bytes buildSignPayload returns
@@ -191,6 +199,11 @@ structure St where
   bounds : Bounds := Bounds.real
   pending : Option (Bool × Bool × PUnit HTerm × Bytes) := none
   tc : TCache Nat := TCache.new 1 1
+  /-- round 6: the contents of the subprocessors' channels (`HProc.queues`), the channel variant, and the
+  key whose `pconsume` waits for the codec's answer -/
+  hq : List (MsgKey HTerm × List (PUnit HTerm × Bytes)) := []
+  hc : HCfg := HCfg.current
+  pendingKey : Option (MsgKey HTerm) := none
 
 /-- RS parameter of one `create`/`construct` request: the answers of the real library are part of
 the request (the model does not compute GF(2^8) arithmetic). -/
@@ -262,10 +275,34 @@ def runPStep (s : St) (sc : Sched) (sigok hasKey : Bool) (u : PUnit HTerm) (send
           if s.proc.tasks == s.bounds.maxWorkers then "publisher-tasks+max-tasks" else "publisher-tasks"
         | some r => r.name | none => "?")
     | _ => ""
-  ({ s with proc := p', pending := none },
+  ({ s with proc := p', pending := none, pendingKey := none },
     procOutStr out ++ why ++ " | " ++ toString p'.tasks ++ " " ++ toString (p'.ptasks (keyOf u).publisher) ++
       -- the store after the step: is the unit's key in the finalized cache; number of live subprocessors
       " " ++ (if p'.core.finalized.contains (keyOf u) then "1" else "0") ++ " " ++ toString p'.core.subs.length)
+
+
+/-- `pconsume`: the subprocessor of `key` receives the next unit of its channel and deals with it
+(`consume` of ModelR6). Answer: the outcome as `pstep` prints it, then ` | <tasks> <publisherTasks>
+<key finalized> <live subprocessors> <units still waiting for key>`. -/
+def runPConsume (s : St) (sc : Sched) (sigok hasKey : Bool) (key : MsgKey HTerm) (rec : Option (List Bytes)) :
+    St × String :=
+  let r := consume s.bounds s.cfg s.pcfg termFns (rsOracle [] rec) (sigOracle sigok hasKey) sc ⟨s.proc, s.hq⟩ key
+  let s' := { s with proc := r.1.tp, hq := r.1.queues, pending := none, pendingKey := none }
+  match r.2 with
+  | none => (s', "empty")
+  | some out =>
+    (s', procOutStr out ++ " | " ++ toString r.1.tp.tasks ++ " " ++ toString (r.1.tp.ptasks key.publisher) ++
+      " " ++ (if r.1.tp.core.finalized.contains key then "1" else "0") ++ " " ++ toString r.1.tp.core.subs.length ++
+      " " ++ toString (r.1.queueOf key).length)
+
+def offerStr (s : St) (u : PUnit HTerm) : OfferRes → String
+  | .taken => "taken"
+  | .full => "full"
+  | .ignored => "ignored"
+  | .panic => "panic"
+  | .refused .publisherTasks =>
+    if s.proc.tasks == s.bounds.maxWorkers then "noroute:publisher-tasks+max-tasks" else "noroute:publisher-tasks"
+  | .refused r => let _ := u; "noroute:" ++ r.name
 
 def wireErr : WireErr → String
   | .noShards => "no-shards" | .shardLen => "shard-len" | .rootLen => "root-len"
@@ -471,15 +508,15 @@ def step (s : St) (line : String) : St × String :=
     match cfg? c, pcfg? pc, hexToBytes? loc, hexList? peers with
     | some c, some pc, some loc, some peers =>
       match newScheduler loc peers with
-      | .ok sc => ({ s with cfg := c, pcfg := pc, sched := some sc, proc := TProc.empty, bounds := Bounds.real, pending := none }, "ok")
-      | .error e => ({ s with sched := none, proc := TProc.empty, pending := none }, "err:" ++ schedErr e)
+      | .ok sc => ({ s with cfg := c, pcfg := pc, sched := some sc, proc := TProc.empty, bounds := Bounds.real, pending := none, hq := [], pendingKey := none }, "ok")
+      | .error e => ({ s with sched := none, proc := TProc.empty, pending := none, hq := [], pendingKey := none }, "err:" ++ schedErr e)
     | _, _, _, _ => (s, "bad-op")
   | ["preset", c, pc, loc, peers, mw, mp] =>
     match cfg? c, pcfg? pc, hexToBytes? loc, hexList? peers, mw.toNat?, mp.toNat? with
     | some c, some pc, some loc, some peers, some mw, some mp =>
       match newScheduler loc peers with
-      | .ok sc => ({ s with cfg := c, pcfg := pc, sched := some sc, proc := TProc.empty, bounds := ⟨mw, mp⟩, pending := none }, "ok")
-      | .error e => ({ s with sched := none, proc := TProc.empty, pending := none }, "err:" ++ schedErr e)
+      | .ok sc => ({ s with cfg := c, pcfg := pc, sched := some sc, proc := TProc.empty, bounds := ⟨mw, mp⟩, pending := none, hq := [], pendingKey := none }, "ok")
+      | .error e => ({ s with sched := none, proc := TProc.empty, pending := none, hq := [], pendingKey := none }, "err:" ++ schedErr e)
     | _, _, _, _, _, _ => (s, "bad-op")
   | ["pexpire", committee, publisher, root, nonce] =>
     match hexToBytes? committee, hexToBytes? publisher, term? root, nonce.toNat? with
@@ -500,12 +537,46 @@ def step (s : St) (line : String) : St × String :=
       let hk := sigok.endsWith "1"
       let u : PUnit HTerm := ⟨committee, publisher, root, proof, sig, idx, shards, nonce⟩
       match needsCodec s sc so hk u sender with
-      | some sh => ({ s with pending := some (so, hk, u, sender) }, "need-rs " ++ optShards sh)
+      | some sh => ({ s with pending := some (so, hk, u, sender), pendingKey := none }, "need-rs " ++ optShards sh)
       | none => runPStep s sc so hk u sender none
     | _, _, _, _, _, _, _, _, _, _ => (s, "bad-op")
+  | ["phc", x] =>
+    if x == "1" then ({ s with hc := ⟨true⟩ }, "ok") else if x == "0" then ({ s with hc := ⟨false⟩ }, "ok") else (s, "bad-op")
+  | ["poffer", sigok, committee, publisher, root, proof, sig, idx, shards, nonce, sender] =>
+    match s.sched, hexToBytes? committee, hexToBytes? publisher, term? root, terms? proof,
+          hexToBytes? sig, idx.toNat?, hexList? shards, nonce.toNat?, hexToBytes? sender with
+    | some sc, some committee, some publisher, some root, some proof, some sig, some idx,
+      some shards, some nonce, some sender =>
+      if !(["00", "01", "10", "11"].contains sigok) then (s, "bad-op") else
+      let so := sigok.startsWith "1"
+      let hk := sigok.endsWith "1"
+      let u : PUnit HTerm := ⟨committee, publisher, root, proof, sig, idx, shards, nonce⟩
+      let r := offer s.hc s.bounds s.pcfg (sigOracle so hk) sc ⟨s.proc, s.hq⟩ u sender
+      ({ s with proc := r.1.tp, hq := r.1.queues, pending := none, pendingKey := none },
+        offerStr s u r.2 ++ " | " ++ toString r.1.tp.tasks ++ " " ++ toString (r.1.tp.ptasks publisher) ++ " " ++
+          (if r.1.tp.core.finalized.contains (keyOf u) then "1" else "0") ++ " " ++ toString r.1.tp.core.subs.length ++
+          " " ++ toString (r.1.queueOf (keyOf u)).length)
+    | _, _, _, _, _, _, _, _, _, _ => (s, "bad-op")
+  | ["pconsume", sigok, committee, publisher, root, nonce] =>
+    match s.sched, hexToBytes? committee, hexToBytes? publisher, term? root, nonce.toNat? with
+    | some sc, some committee, some publisher, some root, some nonce =>
+      if !(["00", "01", "10", "11"].contains sigok) then (s, "bad-op") else
+      let so := sigok.startsWith "1"
+      let hk := sigok.endsWith "1"
+      let key : MsgKey HTerm := ⟨committee, publisher, root, nonce⟩
+      match (HProc.queueOf ⟨s.proc, s.hq⟩ key) with
+      | [] => (s, "empty")
+      | (u, sender) :: _ =>
+        match needsCodec s sc so hk u sender with
+        | some sh => ({ s with pending := some (so, hk, u, sender), pendingKey := some key }, "need-rs " ++ optShards sh)
+        | none => runPConsume s sc so hk key none
+    | _, _, _, _, _ => (s, "bad-op")
   | ["prs", r] =>
     match s.sched, s.pending, (if r == "none" then some none else (hexList? r).map some) with
-    | some sc, some (sigok, hk, u, sender), some rec => runPStep s sc sigok hk u sender rec
+    | some sc, some (sigok, hk, u, sender), some rec =>
+      match s.pendingKey with
+      | some key => runPConsume s sc sigok hk key rec
+      | none => runPStep s sc sigok hk u sender rec
     | _, _, _ => (s, "bad-op")
   | ["vreset", c, loc, peers] =>
     match cfg? c, hexToBytes? loc, hexList? peers with
